@@ -347,6 +347,16 @@ func genC18(seed uint64, i int, tier string) *Scenario {
 // pinVerdict evaluates the trace invariant for the events of one statement.
 // It is also used as a monitor on faulted runs (prefix-closed).
 func pinVerdict(pc *PinCase, evs []Event, complete bool) (kind, detail string) {
+	if len(evs) > 0 && !complete {
+		// a faulted trace: the failed call returned nothing and is not judged itself
+		trimmed := make([]Event, 0, len(evs))
+		for _, e := range evs {
+			if e.Err == "" {
+				trimmed = append(trimmed, e)
+			}
+		}
+		evs = trimmed
+	}
 	allowed := func(k string) bool {
 		for i := range pc.Atoms {
 			if pc.Atoms[i].contains(k) {
@@ -561,10 +571,49 @@ func runC18(sc *Scenario, st *Stats) []Violation {
 	}
 	st.Sample(map[string]any{"statement": pc.Text(), "mode": r.Mode, "batch": sc.Cfg.Batch, "store_pairs": len(sc.Init), "plan": r.Explain, "reads": len(evs)}, 4)
 	kind, detail := pinVerdict(pc, evs, r.Completed)
-	if kind == "" {
-		return nil
+	if kind != "" {
+		return []Violation{{Prop: "C18", Kind: kind,
+			Detail: detail + " | statement: " + pc.Text() + " | plan: " + strings.Join(r.Explain, " > "),
+			Sig:    fmt.Sprintf("shapes=%v opaque=%s mode=%s plan=%s", shapes, op, r.Mode, planShape(r.Explain))}}
 	}
-	return []Violation{{Prop: "C18", Kind: kind,
-		Detail: detail + " | statement: " + pc.Text() + " | plan: " + strings.Join(r.Explain, " > "),
-		Sig:    fmt.Sprintf("shapes=%v opaque=%s mode=%s plan=%s", shapes, op, r.Mode, planShape(r.Explain))}}
+	// The invariant is prefix-closed, so it must keep holding when a storage
+	// call fails: one error injected at every call position of this statement.
+	var vs []Violation
+	positions := []int{}
+	if len(sc.Faults) > 0 {
+		for _, f := range sc.Faults {
+			positions = append(positions, f.Call)
+		}
+	} else {
+		for i := range evs {
+			positions = append(positions, r.EvFrom+i)
+		}
+		if len(positions) > 40 {
+			positions = positions[:40]
+		}
+	}
+	for _, pos := range positions {
+		flt := []Fault{{Call: pos, Kind: FErr}}
+		wf, rf := runStmts(sc, sc.Cfg, stmts, flt)
+		st.noteRun(wf, rf)
+		fr := rf[len(rf)-1]
+		if len(wf.H.fired) == 0 {
+			continue
+		}
+		fevs := wf.H.log[fr.EvFrom:fr.EvTo]
+		fop := wf.H.log[pos].Op
+		st.Inc("faulted_traces_monitored")
+		if k, d := pinVerdict(pc, fevs, false); k != "" {
+			v := Violation{Prop: "C18", Kind: k,
+				Detail: fmt.Sprintf("after an injected error on %s (call #%d): %s | statement: %s | plan: %s", fop, pos, d, pc.Text(), strings.Join(r.Explain, " > ")),
+				Sig:    fmt.Sprintf("shapes=%v opaque=%s mode=%s plan=%s fault-on=%s", shapes, op, r.Mode, planShape(r.Explain), fop)}
+			if len(sc.Faults) == 0 {
+				v.Pinned = cloneScenario(sc)
+				v.Pinned.Faults = flt
+			}
+			vs = append(vs, v)
+			break
+		}
+	}
+	return vs
 }
